@@ -377,6 +377,12 @@ class Inotify:
                                     _move_to_path = inotify_event.src_path + _path[len(move_src_path) :]
                                     self._wd_for_path[_move_to_path] = moved_wd
                                     self._path_for_wd[moved_wd] = _move_to_path
+                    elif self.is_recursive and inotify_event.is_directory:
+                        # Nothing was re-keyed: the directory was moved in from outside the watched
+                        # tree, or renamed before it could be watched. Watch the whole sub-tree now
+                        # (the emitter generates the events for its contents).
+                        with contextlib.suppress(OSError):
+                            self._add_dir_watch(inotify_event.src_path, self._event_mask, recursive=True)
                     src_path = os.path.join(wd_path, name)
                     inotify_event = InotifyEvent(wd, mask, cookie, name, src_path)
 
@@ -387,18 +393,6 @@ class Inotify:
                         del self._wd_for_path[path]
 
                 event_list.append(inotify_event)
-
-                if (
-                    self.is_recursive
-                    and inotify_event.is_directory
-                    and inotify_event.is_moved_to
-                    and inotify_event.src_path not in self._wd_for_path
-                ):
-                    # The directory was moved in from outside the watched tree, or renamed before
-                    # it could be watched: nothing was re-keyed above, so watch the whole sub-tree
-                    # now (the emitter generates the events for its contents).
-                    with contextlib.suppress(OSError):
-                        self._add_dir_watch(inotify_event.src_path, self._event_mask, recursive=True)
 
                 if self.is_recursive and inotify_event.is_directory and inotify_event.is_create:
                     try:
